@@ -30,7 +30,7 @@ CLAIMED = {
    note="Subscriptions, ACL entries and group keys of the vanished fabric are covered only in so far as they live inside the fabric record that disappears with it. Trusted: snapshot hooks, commissioning scaffold.",
    tech="runtime monitoring: incarnation-tracking invariant over session-table / resumption-cache snapshots plus active probes after fabric removal", ref="DESIGN.md §3 C07"),
  "C08": dict(cat="fault_enumeration",
-   text="Commissioning attempts (new fabric over PASE, second fabric through an opened window, UpdateNOC) whose command list is cut, permuted, repeated or issued from another session context, ended by fail-safe expiry, ArmFailSafe(0), RevokeCommissioning, restart or CommissioningComplete, with a KV store failure injected at one mutating operation; afterwards EVERY prefix of the KV operation log is used as a crash point (restart from the map after k operations). Oracle: rollback restores fabrics (canonical serialisation incl. ACLs/groups), networks, fail-safe state and breadcrumb in RAM and after restart; a completed commissioning survives restart; at a crash point the node has the pre-arming or the committed pair, committed only once acknowledged; out-of-order / repeated / foreign-context credential commands are refused without effect.",
+   text="Commissioning attempts (new fabric over PASE, second fabric through an opened window, UpdateNOC, settings-only fail-safe over CASE with ACL and network writes) whose command list is cut, permuted, repeated or issued from another session context, ended by fail-safe expiry, ArmFailSafe(0), RevokeCommissioning, restart or CommissioningComplete (over CASE, or over the PASE session), with a KV store failure injected at one mutating operation; afterwards EVERY prefix of the KV operation log is used as a crash point (restart from the map after k operations). Oracle: rollback restores fabrics (canonical serialisation incl. ACLs/groups), networks, fail-safe state and breadcrumb in RAM and after restart; a completed commissioning survives restart; at a crash point the node has the pre-arming or the committed pair, committed only once acknowledged; out-of-order / repeated / foreign-context credential commands are refused without effect.",
    note="KvBlobStore contract: each store atomic and durable on return. Known finding (listed): the commit is two KV writes and cannot be made atomic over that interface. ArmFailSafe(0)/Revoke by another administrator is observed, not judged.",
    tech="runtime monitoring: before/after state-dump oracle with exhaustive crash-point enumeration over the recorded KV log and KV fault injection", ref="DESIGN.md §3 C08"),
  "C09": dict(cat="exploration",
@@ -51,7 +51,7 @@ CLAIMED = {
    tech="runtime monitoring: ground-truth oracle over session tables, window state and mDNS service list under a network adversary", ref="DESIGN.md §3 C02"),
  "C11": dict(cat="fault_enumeration",
    text="Administrative histories over the full device (1-2 completed commissionings, NodeLabel and ACL writes, CASE rounds filling the resumption cache, fabric removal) with a recording KV store; EVERY prefix of the KV operation log is a crash point: a device restarted from the map after k operations must come up with each committed item (each fabric record incl. ACL, network list, node label) at its last acknowledged or its next value. Plus read-back equality at the end, factory reset leaving no key below the vendor range, and start-up with a damaged resumption blob (every truncation, bit flips, random bytes, boundary length fields).",
-   note="KvBlobStore contract: each store atomic and durable on return; multi-write atomicity is judged by C08. Bindings, user labels, group key sets and persisted subscriptions are not driven by these histories (C13 covers restart with persisted subscriptions).",
+   note="KvBlobStore contract: each store atomic and durable on return; multi-write atomicity is judged by C08. Group membership (GroupKeyMap write, AddGroup, rename) is driven through the real Groups cluster; bindings, user labels, key-set writes and persisted subscriptions are not driven by these histories (C13 covers restart with persisted subscriptions).",
    tech="runtime monitoring: acknowledged-change oracle with exhaustive crash-point enumeration over the recorded KV log; corruption fuzzing of the resumption blob", ref="DESIGN.md §3 C11"),
  "C12": dict(cat="fault_enumeration",
    text="Histories of {reserve, restart, crash before/after each individual KV store, injected store failure} over the three durable counters, starting from boundaries incl. next to the wrap-around; every crash point of histories <= 12 operations is enumerated. Group counter through the reservation hook and through real Exchange::initiate_group sends read off the wire tap; event numbers through a real InteractionModel; check-in counter through the public Icd API with the harness as a well-behaved application. Oracle: values yielded over all incarnations form a set, and each value is covered by a boundary durable in the KV map at the time of use.",
